@@ -11,6 +11,20 @@ Clause map (property text → theorem):
 * "proximity returns each feature's distance to its nearest other feature"
                                                     → `proximity_is_min`, `proximity_none_iff`
 
+* "g(r) equals the corrected pair histogram normalised by density"
+                                                    → `paircorr_norm`, `density_default`, `binSum_eq_sum`, `binSum_nan`
+* "unchanged by translating or permuting the particles"
+                                                    → `paircorr_perm_invariant`, `paircorr_translation_invariant`
+* "the edge correction equals the true length (2D) or area (3D) of the part of the circle or
+  sphere inside the bounding box"                   → NOT PROVED here.
+  -- FULL (not proved): cap_angles (for 0 ≤ h < r, {θ | r cos θ > h} is an interval of length
+  --   2·arccos(h/r)), corner_angles (for h₁²+h₂² < r², {θ | r cos θ > h₁ ∧ r sin θ > h₂} has
+  --   length arccos(h₂/r) − arcsin(h₁/r)), opposite_disjoint, arclen_inclusion_exclusion
+  --   (arclen_2d_bounded = r·|{θ | centre + r(cos θ, sin θ) ∈ box}|), and the 3-D analogue.
+  --   The pair-correlation theorems therefore take the correction as an abstract `arc`; the code's
+  --   arclen_2d_bounded/area_3d_bounded are tied to the geometric definition by the correspondence
+  --   only (angle-interval arithmetic / quadrature), see obligations/C19.json "partial".
+
 All statements are about the definitions of `Model/Static.lean` that the native driver executes.
 The order in which `from_pairs` receives the pairs is the iteration order of a Python `set`; the
 theorems therefore hold for EVERY list `E` with the same members as the model's `pairs`
